@@ -327,16 +327,11 @@ func (a *List) M__iadd__(other Object) (Object, error) {
 
 func (l *List) M__mul__(other Object) (Object, error) {
 	if b, ok := convertToInt(other); ok {
-		m := len(l.Items)
-		n := int(b) * m
-		if n < 0 {
-			n = 0
+		items, err := repeatItems(l.Items, int(b))
+		if err != nil {
+			return nil, err
 		}
-		newList := NewListSized(n)
-		for i := 0; i < n; i += m {
-			copy(newList.Items[i:i+m], l.Items)
-		}
-		return newList, nil
+		return &List{Items: items}, nil
 	}
 	return NotImplemented, nil
 }
